@@ -115,6 +115,8 @@ RBA_SEEDS = [
     "start: 'v' a=','.(x=NAME '=' y=NUMBER { foo(x) })+ NEWLINE | 'w' b=','.(x=NAME '=' y=NUMBER { foo(y) })+ NEWLINE\n",
     "start: p ';' q NEWLINE\np: (x=NAME y=NUMBER { foo(x) })+\nq: (x=NAME y=NUMBER { foo(y) })+\n",
     "start: NAME NAME NAME NAME NEWLINE | NUMBER NUMBER NUMBER { foo(number, number_1, number_2) }\n",
+    "start: r NEWLINE\nr: 'a' ~ 'b' { 'first' } | 'a' 'c' { 'second' }\n",
+    "start: r NEWLINE\nr: x='a' ~ y='b' { foo(x, y) } | 'a' z='c' { foo(z) }\n",
 ]
 
 
@@ -408,7 +410,7 @@ def run(chk: common.Check, tier: str):
     if bad2 is not None:
         chk.oblige("instance condition of C01_generated_parser_implements_the_source_grammar_with_explicit_actions: "
                    f"reads_back_with_actions (rules g) (generate g) = true for the {len(RBA_SEEDS)} shapes of RBA_SEEDS (actions over named "
-                   "items, in groups, in repetition and gather bodies, over default and repeated names)",
+                   "items, in groups, in repetition and gather bodies, over default and repeated names, after a cut)",
                    not bad2 and all(floor2), json.dumps([RBA_SEEDS[i] for i in bad2]))
     floor3 = [rb_term(t) for t in RBF_SEEDS]
     bad4 = common.run_cases(chk, "rbf_floor", prelude + RB_PRELUDE, "(grammar * N)", [x for x in floor3 if x], "fp_ok", shard=4, timeout=600)
